@@ -30,6 +30,7 @@ RULE += (' Also: scoped scenarios over the __getattr__-forwarding adapter.')
 RULE += (' Also: stacks unwound by aclose() instead of a with-block.')
 RULE += (' Also: an advance into which the cancellation was thrown must not hand out an item; re-iterable and lazily set-up sources.')
 RULE += (' Also: every other cancellation object tests false.')
+RULE += (' Also: adapters that offer aclose only once they were advanced.')
 ASSUMPTIONS = ["user cleanup (source aclose, lock release) does not itself suspend",
                "an async-generator source cancelled inside its own await dies with the cancellation (language semantics)"]
 EXHAUSTIVE = {"quick": False, "thorough": False}
@@ -67,7 +68,7 @@ def cases(tier, seed, shard, nshards):
         # (... also re-iterables that hand out a separate iterator per request - the one the tool advanced is the one
         # that must be released - and sources that set themselves up when asked for their iterator)
         flav = [rng.choice(["async_gen", "async_class", "async_class", "async_class_bare", "async_class_proxy",
-                            "async_class_future", "async_iterable", "async_class_lazy", "async_class_closejob"]) for _ in spec["srcs"]]
+                            "async_class_future", "async_iterable", "async_class_lazy", "async_class_closejob", "async_class_lateclose"]) for _ in spec["srcs"]]
         yield {"kind": "tool", "spec": spec, "flav": flav, "susp": rng.choice([1, 1, 2]), "fn_susp": rng.choice([0, 1]),
                "fnfl": "async_def"}
     yield from special.cases(tier, seed, shard, nshards, rng)
@@ -111,6 +112,8 @@ def run_tool(case, stats):
         for st, f in pairs:
             if f == "async_iterable" and not st.given:
                 continue  # (never asked for an iterator: nothing anybody could own)
+            if f == "async_class_lateclose" and not st.started:
+                continue  # (an adapter that was never advanced has not opened anything yet)
             if f != "async_class_bare" and not st.released():  # (an iterator without aclose cannot be released)
                 leaked.append(st.sid)
         if leaked:
